@@ -84,7 +84,7 @@ func zzH_C19_sync() {
 	}
 	reach := zzC19Reach()
 	s := NewSync(zzC19Hash(1), zzC19DB{}, nil)
-	var asked []common.Hash
+	var asked, delivered []common.Hash
 	refusals := 0
 	for step := 0; step <= zzC19Total && s.Pending() > 0; step++ {
 		asked = append(asked, s.Missing(0)...)
@@ -100,6 +100,7 @@ func zzH_C19_sync() {
 			zzverif.Reach("accepted")
 			zzverif.Assert(err == nil, "a requested node is accepted")
 			zzverif.Assert(zzC19In(asked, h), "only nodes handed out by Missing are ever pending")
+			delivered = append(delivered, h)
 		} else {
 			refusals++
 			if refusals > 1 {
@@ -124,6 +125,11 @@ func zzH_C19_sync() {
 			all = append(all, zzverif.Any(!reach[j], zzC19In(order, zzC19Hash(byte(j)))))
 		}
 		zzverif.Assert((s.Pending() == 0) == zzverif.All(all...), "sync reports completion exactly when every reachable node of the source is stored")
+		var got []bool
+		for j := 1; j <= zzC19Total; j++ {
+			got = append(got, zzverif.Any(!reach[j], zzC19In(delivered, zzC19Hash(byte(j)))))
+		}
+		zzverif.Assert(!zzverif.All(got...) || s.Pending() == 0, "once every node of the source has been delivered the sync is complete (no request is left waiting)")
 		for i, a := range order {
 			for _, b := range order[i+1:] {
 				zzverif.Assert(a != b, "no node is stored twice")
